@@ -126,6 +126,9 @@ def enumerate_specs(tier):
                 elif (hi + fi) % 5 == 4 and h.count("b") >= 2:
                     setup = "late"
                 specs.append({"opt": opt, "flags": fl, "history": h, "setup": setup})
+    for opt in ("SGD", "Adam", "AdamW"):
+        specs.append({"opt": opt, "flags": {}, "history": "bs", "setup": "one", "defaults": True})
+        specs.append({"opt": opt, "flags": {}, "history": "bsbs", "setup": "two", "defaults": True})
     for fl in SGD_FLAGS:
         for state in (("fresh", "buffer") if fl["momentum"] != 0 else ("fresh",)):
             specs.append({"kind": "induct", "opt": "SGD", "flags": fl, "state": state})
@@ -141,10 +144,17 @@ class Case:
 
     def __init__(self, spec):
         self.spec = spec
-        self.sig = sig_of(spec["opt"], {"flags": spec["flags"], "history": spec["history"], "setup": spec["setup"]}, None)
+        self.sig = sig_of(spec["opt"], {"flags": spec["flags"], "history": spec["history"], "setup": spec["setup"]},
+                          {"defaults": True} if spec.get("defaults") else None)
 
     def hyper(self, env):
         fl = self.spec["flags"]
+        if self.spec.get("defaults"):
+            # the defaults documented in the docstrings (lr 0.001, betas (0.9, 0.999), eps 1e-08, everything else 0 / False): the optimizer is built from the parameter list alone
+            if self.spec["opt"] == "SGD":
+                return {"lr": 0.001, "momentum": 0, "dampening": 0, "weight_decay": 0, "nesterov": False, "maximize": False}
+            return {"lr": 0.001, "beta1": 0.9, "beta2": 0.999, "eps": 1e-8, "weight_decay": 0,
+                    "maximize": False}
         h = {"lr": env.scalar("lr", lo=0, hi=1, lo_strict=True, nonzero=True)}
         if self.spec["opt"] == "SGD":
             for k in ("momentum", "dampening", "weight_decay"):
@@ -176,7 +186,9 @@ class Case:
             arrays.append(a)
             refs.append(RefParam([a[idx] for idx in np.ndindex(*shp)], requires_grad=not frozen))
         initial = [[a[idx] for idx in np.ndindex(*a.shape)] for a in arrays]
-        if sp["opt"] == "SGD":
+        if sp.get("defaults"):
+            opt = {"SGD": optim.SGD, "Adam": optim.Adam, "AdamW": optim.AdamW}[sp["opt"]](params)
+        elif sp["opt"] == "SGD":
             opt = optim.SGD(params, lr=h["lr"], momentum=h["momentum"], dampening=h["dampening"],
                             weight_decay=h["weight_decay"], nesterov=h["nesterov"], maximize=h["maximize"])
         else:
